@@ -17,6 +17,9 @@ EXPLANATION = (
 EXPLANATION += (
     ' U3b the occurs check descends into every Type variant that contains types. U6 a token span leaving the lexer ends on a position computed from lengths (len differences, len_utf8); a constant number of bytes added to a position is a reviewed site (none on this tree).'
 )
+EXPLANATION += (  # round-3 supplement
+    ' U6 covers every parser::meta::Span built in the crate (constant parts are reviewed sites). U7 the default chain of `match` is generated only if some variant lacks an arm of its own.'
+)
 ASSUMPTIONS = [
     "std's documented panic conditions for str slicing",
     "ariadne expects character offsets (as configured by the crate)",
